@@ -154,6 +154,10 @@ HdrBad(obs, items, vocab) == {n \in vocab \ {"connection"} : F(obs, n, <<>>) # A
 \* fields of its own, e.g. a Content-Type its HTTP library sniffs), hop-by-hop ones must not come through
 Sent(items, n) == \E i \in 1..Len(items) : items[i].n = n
 HdrBadResp(obs, items, vocab) == {n \in vocab \ {"connection"} : Sent(items, n) /\ F(obs, n, <<>>) # Arrive(items, n)}
+\* the proxy's own response fields describe this exchange only: each appears once (a second X-Cache, Cache-Status or
+\* proxy element in Via is left over from another answer of the same stored response)
+OwnBad(obs) == {n \in {"x-cache", "cache-status"} : Len(F(obs, n, <<>>)) > 1}
+               \cup (IF Cardinality({i \in 1..Len(F(obs, "via", <<>>)) : F(obs, "via", <<>>)[i] = "HTTP/1.1 reservoir"}) > 1 THEN {"via"} ELSE {})
 WantBody(c) == IF c.method = "HEAD" THEN "empty" ELSE c.sbody
 Cats(c, r) ==
     IF F(r, "err", "") # "" THEN {"no_answer"}
@@ -163,22 +167,23 @@ Cats(c, r) ==
          \cup (IF HdrBad(r.o_hdr, ReqOf(c), ReqVocab) = {} THEN {} ELSE {"req_headers"})
          \cup (IF r.o_body = c.rbody THEN {} ELSE {"req_body"})
          \cup (IF r.c_status = c.status THEN {} ELSE {"resp_status"})
-         \cup (IF HdrBadResp(r.c_hdr, RespOf(c), RespVocab) = {} /\ ClOK(r.o_cl, r.c_cl) THEN {} ELSE {"resp_headers"})
+         \cup (IF HdrBadResp(r.c_hdr, RespOf(c), RespVocab) \cup OwnBad(r.c_hdr) = {} /\ ClOK(r.o_cl, r.c_cl) THEN {} ELSE {"resp_headers"})
          \cup (IF r.c_status # c.status \/ r.c_body = WantBody(c) THEN {} ELSE {"resp_body"})
          \cup (IF r.h_status = 0 THEN {}
                ELSE (IF r.h_status = c.status THEN {} ELSE {"hit_status"})
-                    \cup (IF HdrBadResp(r.h_hdr, RespOf(c), RespVocab) = {} /\ ClOK(r.o_cl, r.h_cl) THEN {} ELSE {"hit_headers"})
+                    \cup (IF HdrBadResp(r.h_hdr, RespOf(c), RespVocab) \cup OwnBad(r.h_hdr) = {} /\ ClOK(r.o_cl, r.h_cl) THEN {} ELSE {"hit_headers"})
                     \cup (IF r.h_body = WantBody(c) THEN {} ELSE {"hit_body"}))
          \* the same request once more after the entry's lifetime has elapsed (revalidated with a 304 that repeats the fields)
          \cup (IF r.r_status = 0 THEN {}
                ELSE (IF r.r_status = c.status THEN {} ELSE {"reval_status"})
-                    \cup (IF HdrBadResp(r.r_hdr, RespOf(c), RespVocab) = {} /\ ClOK(r.o_cl, r.r_cl) THEN {} ELSE {"reval_headers"})
+                    \cup (IF HdrBadResp(r.r_hdr, RespOf(c), RespVocab) \cup OwnBad(r.r_hdr) = {} /\ ClOK(r.o_cl, r.r_cl) THEN {} ELSE {"reval_headers"})
                     \cup (IF r.r_body = WantBody(c) THEN {} ELSE {"reval_body"}))
 N == Len(Results)
 CaseOf(i) == CasesIn[Results[i].id]
 Bad == {i \in 1..N : Cats(CaseOf(i), Results[i]) # {}}
 AllCats == UNION {Cats(CaseOf(i), Results[i]) : i \in Bad}
-RespNamesBad(i) == HdrBadResp(Results[i].c_hdr, RespOf(CaseOf(i)), RespVocab) \cup
+RespNamesBad(i) == OwnBad(Results[i].c_hdr) \cup OwnBad(Results[i].h_hdr) \cup OwnBad(Results[i].r_hdr) \cup
+                   HdrBadResp(Results[i].c_hdr, RespOf(CaseOf(i)), RespVocab) \cup
                    (IF Results[i].h_status > 0 THEN HdrBadResp(Results[i].h_hdr, RespOf(CaseOf(i)), RespVocab) ELSE {}) \cup
                    (IF Results[i].r_status > 0 THEN HdrBadResp(Results[i].r_hdr, RespOf(CaseOf(i)), RespVocab) ELSE {})
 Detail(i) == IF F(Results[i], "err", "") # ""
